@@ -679,7 +679,19 @@ def middleware_release_order(L, rec):
         stk.push(f"frame-{n}")
         return Body(n)
 
-    app = mgr.make_middleware(inner)
+    import functools
+
+    def plain_decorator(f):
+        @functools.wraps(f)
+        def wrapper(environ, start_response):
+            return f(environ, start_response)
+
+        return wrapper
+
+    apps = {"make_middleware": mgr.make_middleware(inner), "decorator": mgr.middleware(inner),
+            # the decorator form on an application that already went through another functools.wraps decorator
+            "decorator-over-a-wrapped-app": mgr.middleware(plain_decorator(inner))}
+    app = None
 
     def worker():
         for n in range(3):
@@ -688,10 +700,11 @@ def middleware_release_order(L, rec):
             it.close()
         seen["end"] = (getattr(loc, "user", "MISSING"), getattr(loc, "audit", "MISSING"), stk.top)
 
-    for variant in ("thread", "copy_context"):
+    for variant, appkind in itertools.product(("thread", "copy_context"), sorted(apps)):
+        app = apps[appkind]
         seen.clear()
         rec.case()
-        rec.nontrivial(("middleware-release-order", variant))
+        rec.nontrivial(("middleware-release-order", variant, appkind))
         rec.observe("middleware_request_sequences")
         if variant == "thread":
             t = threading.Thread(target=worker)
@@ -699,7 +712,7 @@ def middleware_release_order(L, rec):
             t.join()
         else:
             contextvars.copy_context().run(worker)
-        case = {"realisation": variant, "scenario": "middleware-release-order"}
+        case = {"realisation": variant, "scenario": "middleware-release-order", "wrapped_by": appkind}
         for n in range(3):
             if seen.get((n, "start")) != ("MISSING", "MISSING", None):
                 rec.violation("C18/LEAK-previous-request-visible-after-release", f"request {n} on a re-used {variant} started with {seen.get((n, 'start'))!r} (user, audit, stack top) - data of the request before it", case, monitor="reference-store")
